@@ -98,6 +98,10 @@ def run(ctx):
     relevant = [m for m in mism if m.get("case", {}).get("method") == "_fit_mle" or "constructor" in m["what"]]
     for m in relevant[:5]:
         ctx.mismatch("generated %s.%s" % (m["case"]["cls"], m["case"]["method"]), m["what"])
+    sd_bad = D.scipydist_correspondence(ctx, ctx.n(120, 1200), parts=("fit",))
+    ctx.notes["scipydist_correspondence"] = {"mismatches": len(sd_bad)}
+    for b in sd_bad[:5]:
+        ctx.mismatch("ScipyDistribution._fit_mle hand model", b["what"])
     rng = ctx.rng
     cases = []
     nrep = ctx.n(1, 6)
